@@ -44,9 +44,10 @@ var c08Validities = []c08Validity{
 
 var c08ACS = []string{"", "redirect-only", "post-only", "artifact-only", "paos-only", "unknown-only", "artifact-default+post",
 	"post+artifact-lowest", "none", "empty-binding", "empty-location", "redirect-default+post", "three", "query-url",
-	"simplesign-only", "soap-only", "uri-only", "simplesign-default+post", "post+simplesign"}
+	"simplesign-only", "soap-only", "uri-only", "simplesign-default+post", "post+simplesign",
+	"post-padded", "redirect-padded-nl", "post-upper-case", "post-padded+redirect", "location-padded"}
 var c08ProtoB = []string{"", "post", "redirect", "artifact", "paos", "junk", "simplesign", "soap"}
-var c08Persist = []string{"", "error", "empty-id", "error-ctx-deadline", "error-ctx-canceled", "lookup:error", "lookup:error-ctx-deadline", "lookup:error-ctx-canceled"}
+var c08Persist = []string{"", "error", "empty-id", "error-ctx-deadline", "error-ctx-canceled", "error-with-record", "lookup:error", "lookup:error-ctx-deadline", "lookup:error-ctx-canceled", "lookup:error-with-record"}
 
 type c08Case struct {
 	Validity string `json:"validity"`
@@ -224,7 +225,7 @@ func runC08(ctx Ctx) int {
 		return rc
 	}
 	run := ev.NewRun("C08")
-	run.Rule = "full product of request validity (valid x4, failing at each validation step x12) x 19 SP ACS metadata shapes (POST, Redirect, Artifact, PAOS, SimpleSign, SOAP, URI, unknown) x 8 requested bindings x 8 storage answers (persist ok/error/empty id/context errors; SP lookup errors); every case executed twice on the same provider (event history of depth 2); plus a ResponseWriter failing at the first Write call / after 100 bytes, followed by the same request on a healthy connection (thorough: Write call 1..3, after 1 / 100 / 700 bytes, every storage answer); a state is (provider storage table, reply); oracle = outcome dichotomy (persisted exactly once + 303 to the login URL of the returned id | nothing persisted + exactly one non-Success SAML Response or a plain HTTP error with text)"
+	run.Rule = "full product of request validity (valid x4, failing at each validation step x12) x 24 SP ACS metadata shapes (POST, Redirect, Artifact, PAOS, SimpleSign, SOAP, URI, unknown; white-space-padded and case-changed binding URIs, padded location) x 8 requested bindings x 10 storage answers (persist ok / error / empty id / context errors / error together with a record object; SP lookup errors, also together with the record); every case executed twice on the same provider (event history of depth 2); plus a ResponseWriter failing at the first Write call / after 100 bytes, followed by the same request on a healthy connection (thorough: Write call 1..3, after 1 / 100 / 700 bytes, every storage answer); a state is (provider storage table, reply); oracle = outcome dichotomy (persisted exactly once + 303 to the login URL of the returned id | nothing persisted + exactly one non-Success SAML Response or a plain HTTP error with text)"
 	run.Assume = []string{"the second request of a pair is byte-identical to the first", "writer failures are injected at Write-call granularity"}
 	if ctx.Replay != "" {
 		var c c08Case
